@@ -110,6 +110,13 @@ def _expand(elements, side, ctx):
             u = El('u', w=n, order=_default_order(ctx), key=e.key, val=e.val, op=e.op, conv=e.cls)
             u.extra['enum'] = True
             out.append(u)
+        elif k == 'nested' and isinstance(e.cls, tuple) and e.cls and e.cls[0] == 'union':
+            sizes = {union_member_size(m, ctx) for m in e.cls[1]}
+            if len(sizes) == 1 and None not in sizes:
+                u = El('u', w=sizes.pop(), order=_default_order(ctx), key=e.key, val=e.val, op=e.op)
+                out.append(u)
+            else:
+                out.append(e)
         elif k == 'narray' and len(e.cls) == 1 and ctx.is_enum_factory(e.cls[0]) and not e.extra.get('derived'):
             n = ctx.byte_num(e.cls[0])
             fb = e.extra.get('fallback')
@@ -132,6 +139,20 @@ def _expand(elements, side, ctx):
                 e.extra['subbody'] = _expand(e.extra['subbody'], side, ctx)
             out.append(e)
     return out
+
+
+def union_member_size(m, ctx):
+    """wire size of a value of class m when it is a fixed width code (enum member or invalid-type wrapper)"""
+    if m.enum_members is not None:
+        pc = m.enum_params_class
+        if isinstance(pc, ClassInfo) and pc.resolve('get_code_size'):
+            r = ctx.interp.const_call(pc, 'get_code_size')
+            return r if isinstance(r, int) else None
+        return None
+    if m.resolve('get_byte_num') is not None and not m.abstract_methods:
+        r = ctx.interp.const_call(m, 'get_byte_num')
+        return r if isinstance(r, int) else None
+    return class_fixed_size(m, ctx)
 
 
 def _default_order(ctx):
